@@ -34,15 +34,29 @@ def append_rule(ctx, rid):
     ctx.touch(f, g)
     fl = Flow(g, {"self._full_df": NOTNONE, "sync": FALSE}).run()
     cc = [(n, c) for n, c, nm in all_calls(ctx, f, g) if nm == "pandas.concat" and n.id in fl.visited]
-    if len(cc) == 1 and cc[0][1].args and isinstance(cc[0][1].args[0], (ast.List, ast.Tuple)) and [norm(x) for x in cc[0][1].args[0].elts] == ["self._full_df", "new_df"]:
-        rr.ok("add_df: concat([self._full_df, new_df]) -- earlier rows first, unchanged")
+
+    def expands(e, want):
+        from .harvest import _expands_to
+        return _expands_to(f, e, {want})
+    if len(cc) == 1 and cc[0][1].args and isinstance(cc[0][1].args[0], (ast.List, ast.Tuple)) and len(cc[0][1].args[0].elts) == 2:
+        a0, a1 = cc[0][1].args[0].elts
+        if expands(a0, "self._full_df") and expands(a1, "new_df"):
+            rr.ok("add_df: concat([accumulated, new]) -- earlier rows first, unchanged")
+        elif expands(a1, "self._full_df") and expands(a0, "new_df"):
+            rr.bad(ctx.finding(rid, f, cc[0][1], "add_df concatenates the new rows *before* the accumulated ones (%s): earlier rows move" % norm(cc[0][1].args[0]), construct="concat-orientation"), "concat orientation")
+        else:
+            raise AnalysisError("idiom changed: operands of pd.concat in add_df: %s" % norm(cc[0][1].args[0]))
+    elif not cc:
+        rr.bad(ctx.finding(rid, f, f.node, "with an accumulated table present add_df does not concatenate it with the new rows: earlier rows are dropped", construct="concat-missing"), "concat orientation")
     else:
-        rr.bad(ctx.finding(rid, f, cc[0][1] if cc else f.node, "add_df does not append the new rows after the accumulated ones with concat([self._full_df, new_df]) (found %s): earlier rows move, are dropped or duplicated" % ([norm(c) for _, c in cc]),
-                           construct="concat-orientation"), "concat orientation")
+        raise AnalysisError("idiom changed: pd.concat calls in add_df")
     fl2 = Flow(g, {"self._full_df": NONE, "sync": FALSE}).run()
-    nv = [n for n in g.nodes if n.id in fl2.visited and n.kind == "stmt" and isinstance(n.ast, ast.Assign) and norm(n.ast.targets[0]) == "new_full_df"]
-    if len(nv) == 1 and norm(nv[0].ast.value) in ("new_df.copy(deep=True)", "new_df.copy()"):
+    cp = [n for n in g.nodes if n.id in fl2.visited and n.kind == "stmt" and isinstance(n.ast, ast.Assign) and norm(n.ast.value) in ("new_df.copy(deep=True)", "new_df.copy()")]
+    cc2 = [1 for n, c, nm in all_calls(ctx, f, g) if nm == "pandas.concat" and n.id in fl2.visited]
+    if cp and not cc2:
         rr.ok("add_df: no table yet -> a copy of the new rows")
+    elif cc2:
+        raise AnalysisError("idiom changed: add_df concatenates although no table is accumulated")
     else:
         rr.bad(ctx.finding(rid, f, f.node, "with no accumulated table add_df does not start from a copy of the new rows", construct="first-append"), "first append")
     # who may store _full_df
@@ -98,40 +112,84 @@ def draws_rule(ctx, rid):
     f = ctx.prog.need_func(FARM + ".Sampler.gen_cases_fnargs")
     g = build_cfg(f.node)
     ctx.touch(f, g)
-    defs = [(n, v) for n, v in __import__("xyzsa.util", fromlist=["x"]).assignments_to(f, "combos", g) if v is not None]
-    merged = [v for n, v in defs if isinstance(v, ast.Dict) and all(k is None for k in v.keys)]
-    if len(merged) == 1 and [norm(x) for x in merged[0].values] == ["self.default_combos", "combos"]:
-        rr.ok("combos = {**self.default_combos, **combos}: the run's combos override the defaults")
+    # layering of the mapping the draws come from: later layers win
+    layers = {}
+    order_nodes = sorted((n for n in walk_shallow(f.node) if isinstance(n, (ast.Assign, ast.Expr))), key=lambda n: (n.lineno, n.col_offset))
+    param = f.positional[2] if len(f.positional) > 2 else "combos"
+    layers[param] = ["<run>"]
+    for n in order_nodes:
+        if isinstance(n, ast.Assign) and len(n.targets) == 1 and isinstance(n.targets[0], ast.Name):
+            t, v = n.targets[0].id, n.value
+            def lay(e):
+                if isinstance(e, ast.Name):
+                    return list(layers.get(e.id, ["?" + e.id]))
+                if norm(e) == "self.default_combos":
+                    return ["<defaults>"]
+                if isinstance(e, ast.Dict) and all(k is None for k in e.keys):
+                    out = []
+                    for x in e.values:
+                        out += lay(x)
+                    return out
+                if isinstance(e, ast.Dict) and not e.keys:
+                    return []
+                if isinstance(e, ast.Call) and norm(e.func) == "dict" and len(e.args) <= 1:
+                    return lay(e.args[0]) if e.args else []
+                if isinstance(e, ast.IfExp):
+                    a_, b_ = lay(e.body), lay(e.orelse)
+                    return a_ if a_ else b_
+                return ["?"]
+            layers[t] = lay(v)
+        elif isinstance(n, ast.Expr) and isinstance(n.value, ast.Call) and isinstance(n.value.func, ast.Attribute) and n.value.func.attr == "update" and isinstance(n.value.func.value, ast.Name) and len(n.value.args) == 1:
+            t = n.value.func.value.id
+            a = n.value.args[0]
+            add = list(layers.get(a.id, ["?" + a.id])) if isinstance(a, ast.Name) else (["<defaults>"] if norm(a) == "self.default_combos" else ["?"])
+            layers[t] = layers.get(t, []) + add
+    # the mapping actually iterated for the draws
+    src = None
+    for x in ast.walk(f.node):
+        if isinstance(x, ast.Call) and isinstance(x.func, ast.Attribute) and x.func.attr in ("values", "items") and isinstance(x.func.value, ast.Name):
+            src = x.func.value.id
+    need(src is not None, "idiom changed: gen_cases_fnargs does not iterate a mapping's values")
+    lsrc = [l for l in layers.get(src, ["?"])]
+    if lsrc == ["<defaults>", "<run>"]:
+        rr.ok("draws come from {defaults overridden by the run's combos}")
+    elif lsrc == ["<run>", "<defaults>"]:
+        rr.bad(ctx.finding(rid, f, f.node, "the per-run combos do not override the sampler's defaults (the defaults are merged in last): rows carry argument values that were not among the choices given for the run", construct="combos-precedence"), "override precedence")
     else:
-        rr.bad(ctx.finding(rid, f, merged[0] if merged else f.node, "the per-run combos do not override the sampler's defaults (merge order %s): rows carry argument values that were not among the choices given for the run"
-                           % ([norm(x) for x in merged[0].values] if merged else "?"), construct="combos-precedence"), "override precedence")
+        raise AnalysisError("idiom changed: layering of the combos mapping in gen_cases_fnargs: %s" % lsrc)
+    merged = []
     rets = [n for n in g.nodes if n.kind == "stmt" and isinstance(n.ast, ast.Return)]
     need(len(rets) == 1 and isinstance(rets[0].ast.value, ast.Tuple) and len(rets[0].ast.value.elts) == 2, "idiom changed: gen_cases_fnargs return")
     names_e, cases_e = rets[0].ast.value.elts
     cd = single_def(f, cases_e.id, g) if isinstance(cases_e, ast.Name) else None
     ce = cd[1] if cd else cases_e
-    ok_names = norm(names_e) in ("tuple(combos.keys())", "tuple(combos)")
+    ok_names = norm(names_e) in ("tuple(%s.keys())" % src, "tuple(%s)" % src)
     inner = None
     for x in ast.walk(ce):
-        if isinstance(x, ast.GeneratorExp) and len(x.generators) == 1 and norm(x.generators[0].iter) == "combos.values()":
+        if isinstance(x, ast.GeneratorExp) and len(x.generators) == 1 and norm(x.generators[0].iter) == "%s.values()" % src:
             inner = x
-    last_merge = max([n.id for n, v in defs]) if defs else -1
     if ok_names and inner is not None and not inner.generators[0].ifs:
         rr.ok("names = combos.keys(), each case = one draw per combos.values(): same mapping, same iteration order")
+    elif ok_names is False and norm(names_e).startswith("tuple(") and src not in norm(names_e):
+        rr.bad(ctx.finding(rid, f, rets[0].ast, "argument names (%s) and per-case draws (%s.values()) do not come from the same mapping: values are attributed to the wrong arguments" % (norm(names_e), src), construct="names-vs-draws"), "names vs draws")
     else:
-        rr.bad(ctx.finding(rid, f, rets[0].ast, "argument names (%s) and per-case draws do not iterate the same mapping in the same order: values are attributed to the wrong arguments" % norm(names_e), construct="names-vs-draws"), "names vs draws")
+        raise AnalysisError("idiom changed: names / draws construction in gen_cases_fnargs")
     if inner is not None:
         e = inner.elt
         v = norm(inner.generators[0].target)
         if isinstance(e, ast.IfExp) and norm(e.test) == "callable(%s)" % v and norm(e.body) == "%s()" % v and norm(e.orelse) in ("np.random.choice(%s)" % v, "random.choice(%s)" % v):
             rr.ok("draw = v() if callable(v) else np.random.choice(v)")
-        else:
+        elif isinstance(e, ast.IfExp) and "callable(%s)" % v in norm(e.test):
             rr.bad(ctx.finding(rid, f, e, "a draw is `%s`, not `v() if callable(v) else np.random.choice(v)`" % norm(e), construct="draw-dispatch"), "draw dispatch")
+        else:
+            raise AnalysisError("idiom changed: draw expression %s" % norm(e))
     outer = [x for x in ast.walk(ce) if isinstance(x, ast.GeneratorExp) and len(x.generators) == 1 and norm(x.generators[0].iter) == "range(n)"]
     if outer:
         rr.ok("exactly n cases are drawn (range(n))")
-    else:
+    elif [x for x in ast.walk(ce) if isinstance(x, ast.GeneratorExp) and len(x.generators) == 1 and norm(x.generators[0].iter).startswith("range(")]:
         rr.bad(ctx.finding(rid, f, ce, "the number of drawn cases is not range(n)", construct="draw-count"), "n draws")
+    else:
+        raise AnalysisError("idiom changed: number of drawn cases")
     return rr
 
 
